@@ -13,6 +13,7 @@ for v in ['dbg', 'rel', 'nosep', 'plain', 'nightly']:
 PY
 cd spec
 for f in *.tla; do
+  [ "$f" = "BufferProof.tla" ] && continue   # a proof module (EXTENDS TLAPS): parsed and checked by tlapm in ./check C05
   tla-sany "$f" > ../work/sany.log 2>&1 || { cat ../work/sany.log; echo "SANY failed on $f"; exit 1; }
 done
 cd ..
